@@ -30,7 +30,7 @@ if [ -n "$demo_cmd" ]; then r1=$(run_demo); echo "   demo with the change:      
 find $WT -name '*_seeddemo_test.go' -delete; rm -rf $WT/seeddemo "$WT/$(basename "$SEED")"; git -C $WT status --porcelain | grep '^??' | awk '{print $2}' | (cd $WT && xargs -r rm -rf)
 (cd $WT && go test -count=1 ./... > /var/tmp/seedtry-$N.tests 2>&1) && echo "   existing tests: pass" || { echo "   EXISTING TESTS FAIL"; grep -a "FAIL" /var/tmp/seedtry-$N.tests | head -5; }
 for id in "$@"; do
-  out=$(cd /verif && VERIF_REPO=$WT VERIF_WORKROOT=/var/tmp/chf-verif-seed-$N ./check $id quick 2>&1)
+  out=$(cd ${VERIF_DIR:-/verif} && VERIF_REPO=$WT VERIF_WORKROOT=/var/tmp/chf-verif-seed-$N ./check $id quick 2>&1)
   rc=$?
   echo "   check $id: exit $rc  $(echo "$out" | grep -a 'VIOLATION' | head -2 | cut -c1-220 | tr '\n' ' ')"
   [ $rc -eq 2 ] && echo "$out" | grep -a "INCONCL\|error" | head -3 | cut -c1-300 | sed 's/^/      | /'
